@@ -2,6 +2,7 @@ import NetVerif.Model.HtmlTok
 import NetVerif.Gen.C39
 import NetVerif.Model.HtmlTokExact
 import NetVerif.Proofs.Lemmas.HtmlTokExact
+import NetVerif.Proofs.Lemmas.HtmlTokMaxBuf
 /-!
 C39 — HTML tokenization is lossless; MaxBuf bound.
 
@@ -437,23 +438,60 @@ theorem exact_lossless_partial (z0 : Z) (h0 : z0.rawEnd = 0) (ho : SpanOrder (to
   rw [h0] at this
   exact chained_of_startsAt 0 _ this ho
 
-/-- The literal MaxBuf clause of C39 on the exact model: no returned token is longer than the limit. -/
+/-- The MaxBuf clause of C39 on the exact model: no returned token is longer than the limit. -/
 def MaxBufStatement : Prop :=
-  ∀ (inp ctx : List Nat) (mb : Nat) (cdata : Bool), mb > 0 →
-    ∀ t ∈ (tokenizeAll (newTokenizer inp ctx mb cdata .eof)).1, t.stop - t.start ≤ mb
+  ∀ (inp ctx : List Nat) (mb : Nat) (cdata : Bool) (fe : Err), (fe = .eof ∨ fe = .other) → mb > 0 →
+    ∀ t ∈ (tokenizeAll (newTokenizer inp ctx mb cdata fe)).1, t.stop - t.start ≤ mb
+
+open NetVerif.Proofs.Lemmas.HtmlTokMaxBuf (Between next_bound) in
+theorem runLoop_bound (mb f : Nat) (z : Z) (acc : List TokSpan) (hb : Between z) (hmb : z.maxBuf = mb)
+    (hpos : mb > 0) (hacc : ∀ t ∈ acc, t.stop - t.start ≤ mb) :
+    ∀ t ∈ (runLoop f z acc).1, t.stop - t.start ≤ mb := by
+  induction f generalizing z acc with
+  | zero => simpa [runLoop] using hacc
+  | succ f ih =>
+    simp only [runLoop]
+    split
+    · simpa using hacc
+    · obtain ⟨hb', hle⟩ := next_bound z hb
+      have hm' : (next z).2.maxBuf = mb := by rw [(next_frame z).2.2, hmb]
+      apply ih (next z).2 _ hb' hm'
+      intro t ht
+      simp only [List.mem_cons] at ht
+      rcases ht with rfl | ht
+      · simp only []
+        have := hle (by omega)
+        omega
+      · exact hacc t ht
+
+/-- **MaxBuf, full strength on the exact model** (after the upstream fix in
+readMarkupDeclaration): for every input, context tag, CDATA setting and reader
+error, with `SetMaxBuf(mb)`, `mb > 0`, no token returned by `Next` has
+`len(Raw()) > mb`. -/
+theorem maxBuf_statement_holds : MaxBufStatement := by
+  intro inp ctx mb cdata fe hfe hpos
+  unfold tokenizeAll
+  apply runLoop_bound mb _ _ [] ?_ ?_ hpos (by simp)
+  · constructor
+    · simpa [newTokenizer] using hfe
+    · intro h; simp [newTokenizer] at h
+  · simp [newTokenizer]
+
+open NetVerif.Proofs.Lemmas.HtmlTokMaxBuf (Between next_bound) in
+/-- …and neither has the final ErrorToken (nor any token of any later call). -/
+theorem exact_every_next_within_maxBuf (z : Z) (hb : Between z) (hpos : z.maxBuf > 0) :
+    (next z).2.rawEnd - (next z).2.rawStart ≤ z.maxBuf := by
+  have := (next_bound z hb).2 (by rw [(next_frame z).2.2]; exact hpos)
+  rw [(next_frame z).2.2] at this
+  exact this
 
 def doctypeInput : List Nat := [60, 33, 68, 79, 67, 84, 89, 80, 69, 32, 104, 116, 109, 108, 62]  -- "<!DOCTYPE html>"
 
-/-- The unchanged code violates the literal clause: `<!DOCTYPE html>` with
-`SetMaxBuf(5)` yields a comment token whose raw is `<!DOCT` (6 bytes), with
-`AllowCDATA(true)` `<!DOCTY` (7 bytes). Finding `maxbuf-overshoot-markup-decl`. -/
-theorem maxBuf_statement_false : ¬ MaxBufStatement := by
-  intro h
-  have := h doctypeInput [] 5 false (by decide) ⟨5, 0, 6⟩ (by decide +kernel)
-  simp at this
-
-theorem maxBuf_overshoot_two : (tokenizeAll (newTokenizer doctypeInput [] 5 true .eof)).1 = [⟨5, 0, 7⟩] := by
-  decide +kernel
+/-- The old witness of finding `maxbuf-overshoot-markup-decl` (`<!DOCTYPE html>`
+with `SetMaxBuf(5)` used to give `Raw() = "<!DOCT"`, 6 bytes; 7 with AllowCDATA)
+now satisfies the statement: the bogus comment stops at the limit. -/
+example : (tokenizeAll (newTokenizer doctypeInput [] 5 false .eof)).1 = [⟨5, 0, 5⟩] := by decide +kernel
+example : (tokenizeAll (newTokenizer doctypeInput [] 5 true .eof)).1 = [⟨5, 0, 5⟩] := by decide +kernel
 
 /-- without a limit the same input is one Doctype token covering everything -/
 example : (tokenizeAll (newTokenizer doctypeInput [] 0 false .eof)).1 = [⟨6, 0, 15⟩] := by decide +kernel
